@@ -227,8 +227,8 @@ func (m *model) reopen() {
 }
 
 // obs renders the model as the observation the real object must show.
-func (m *model) obs() (o Obs) {
-	for a := 0; a < NA; a++ {
+func (m *model) obs(na int) (o Obs) {
+	for a := 0; a < na; a++ {
 		x := &o.A[a]
 		x.Bal = "0"
 		x.ALAddr = m.alAddr[a]
